@@ -15,8 +15,10 @@ class ControlledPool:
     finish = None       # n -> permutation of range(n): delivery order of imap_unordered
     log = []            # (function name, n tasks) per pool call
 
-    def __init__(self, *a, **k):
-        pass
+    def __init__(self, processes=None, *a, **k):
+        # what multiprocessing.Pool checks itself: a pool asked for with no worker at all is refused
+        if processes is not None and processes < 1:
+            raise ValueError("Number of processes must be at least 1")
 
     touched = None      # when a list: per pool call, per task (writes, reads) seen by the audit hook
 
